@@ -63,8 +63,8 @@ Theorem conforms_list : forall st ps i pa pt fl its e mn mx m,
   (* every dict / list item is routed to a Dict / List spec (or Any) by the element spec and carries that spec *)
   (forall k j kd pa' pt' fl' its', In (k, Node j kd pa' pt' fl' its') its ->
      match kd with
-     | KDict => route true e = true /\ f_spec fl' = ref_opt ev (bound_for true e)
-     | KList => route false e = true /\ f_spec fl' = ref_opt ev (bound_for false e)
+     | KDict => route true e = true /\ carries ev fl' (bound_for true e)
+     | KList => route false e = true /\ carries ev fl' (bound_for false e)
      | KObj c => exists p', apply p' e (obj_pv c) = Ok (obj_pv c)
      end) /\
   (* an item is MISSING_VALUE only when the list was made partial *)
